@@ -307,9 +307,12 @@ Proof.
   exfalso. apply (proj1 (tlive_live st st' t T)); congruence.
 Qed.
 
+(* without the hypothesis that the signal object is not shared the statement is false
+   (forwarder_dies_with_signal_false below): OGDel on a shared signal object is skipped, the object
+   is destroyed later by the collection of orphans, so its forwarders stay valid *)
 Lemma forwarder_dies_with_signal : S_forwarder_dies_with_signal.
 Proof.
-  intros prog rec g st st' go H Hl Hk Hs r f Hin Hfn. cbn [step] in Hs. rewrite Hl in Hs.
+  intros prog rec g st st' go H Hl Hk Hsh Hs r f Hin Hfn. cbn [step] in Hs. rewrite Hl, Hsh in Hs. cbn [negb] in Hs.
   destruct (sig_destroy_G g go st H Hl) as (st'' & E & G). rewrite E in Hs. cbn [liftu lift] in Hs.
   inversion Hs; subst st''. clear Hs.
   right. intro Hr. apply (wf_refs_live st' r f (trackable_of_sig g) (proj1 G) Hin Hfn Hr).
@@ -576,6 +579,7 @@ Proof. unfold conn_ptr. destruct (get_connptr w st) as [p|]; [intro E; rewrite E
 
 (* common analysis of OGDel at a quiescent point *)
 Lemma sig_del_top prog rec g st st' go i : WF_top st -> live_sig g st = Some go -> g_impl go = Some i ->
+  is_shared (sig_key g) st = false ->
   step prog rec (OGDel g) st = Done st' tt ->
   exists sta im im1,
     aget i (impls st) = Some im /\ aget i (impls sta) = Some im1 /\ impl_same im im1 /\
@@ -586,7 +590,7 @@ Lemma sig_del_top prog rec g st st' go i : WF_top st -> live_sig g st = Some go 
     refcount i st = refcount i (with_sigs (aset g None (sigs sta)) sta) + 1 /\
     release_check i (with_sigs (aset g None (sigs sta)) sta) = Ok st'.
 Proof.
-  intros [H Hq] Hl Hi Hs. cbn [step] in Hs. rewrite Hl in Hs.
+  intros [H Hq] Hl Hi Hsh Hs. cbn [step] in Hs. rewrite Hl, Hsh in Hs. cbn [negb] in Hs.
   destruct (sig_destroy_G g go st H Hl) as (st'' & E & G). rewrite E in Hs. cbn [liftu lift] in Hs.
   inversion Hs; subst st''. clear Hs.
   unfold sig_destroy in E.
@@ -606,10 +610,12 @@ Proof.
   rewrite Hgi, Hgi1. congruence.
 Qed.
 
+(* without the hypothesis that the handle is not shared the statement is false
+   (last_handle_teardown_false below): OGDel on a shared signal object is skipped *)
 Lemma last_handle_teardown : S_last_handle_teardown.
 Proof.
-  intros prog rec g st st' go i Ht Hl Hi Hrc Hs.
-  destruct (sig_del_top prog rec g st st' go i Ht Hl Hi Hs)
+  intros prog rec g st st' go i Ht Hl Hi Hrc Hsh Hs.
+  destruct (sig_del_top prog rec g st st' go i Ht Hl Hi Hsh Hs)
     as (sta & im & im1 & Hgi & Hgi1 & Hsame & Hh & Hd & W2 & W' & _ & Cm & Hr & E).
   set (st2 := with_sigs (aset g None (sigs sta)) sta) in *.
   assert (Hr0 : refcount i st2 = 0) by lia.
@@ -624,6 +630,49 @@ Proof.
   - exfalso. rewrite Hw in X. destruct (wf_conn_target st' w i n W' X) as (sb & r & Hg & _).
     destruct (get_sb_node_inv _ _ _ _ Hg) as (imx & ndx & Hx & _). congruence.
   - unfold conn_ptr. rewrite X. reflexivity.
+Qed.
+
+(* the counterexample to S_last_handle_teardown and S_forwarder_dies_with_signal without the
+   hypothesis [is_shared (sig_key g) st = false]: a trackable_signal
+   with its own make_slot() forwarder connected, made a co-owned object; the program's OGDel is skipped *)
+Definition shx_prog : program := mkProg [] [] [] [].
+Definition shx_ops : list op :=
+  [OGNew 0 (mkGK RV None true); OGMakeSlot 0 0; OGConnect 0 0 None false false; OGShare 0].
+Definition shx_st : state := match run_top shx_prog 0 shx_ops st0 with Ok s => s | Err _ => st0 end.
+Definition shx_st' : state :=
+  match step shx_prog (run_callee_fuel shx_prog 0) (OGDel 0) shx_st with Done s _ => s | _ => st0 end.
+
+Lemma last_handle_teardown_false :
+  ~ (forall prog rec g st st' go i, WF_top st -> live_sig g st = Some go -> g_impl go = Some i ->
+       refcount i st = 1 ->
+       step prog rec (OGDel g) st = Done st' tt ->
+       aget i (impls st') = None /\ (forall w n, conn_ptr w st = Some (i, n) -> conn_ptr w st' = None)).
+Proof.
+  intro H.
+  assert (E : run_top shx_prog 0 shx_ops st0 = Ok shx_st) by (vm_compute; reflexivity).
+  pose proof (run_top_safe shx_prog 0 shx_ops st0 WF_top_st0) as W. rewrite E in W.
+  assert (A1 : live_sig 0 shx_st = Some (mkSig (mkGK RV None true) (Some 0))) by (vm_compute; reflexivity).
+  assert (A3 : refcount 0 shx_st = 1) by (vm_compute; reflexivity).
+  assert (A4 : step shx_prog (run_callee_fuel shx_prog 0) (OGDel 0) shx_st = Done shx_st' tt) by (vm_compute; reflexivity).
+  destruct (H _ _ _ _ _ _ _ W A1 eq_refl A3 A4) as (A & _).
+  vm_compute in A. discriminate.
+Qed.
+
+Lemma forwarder_dies_with_signal_false :
+  ~ (forall prog rec g st st' go, WF st -> live_sig g st = Some go -> gk_track (g_kind go) = true ->
+       step prog rec (OGDel g) st = Done st' tt ->
+       forall r f, In r (all_reps st') -> r_fn r = Some f -> f_fwd f <> Some g \/ ~ In (trackable_of_sig g) (f_refs f)).
+Proof.
+  intro H.
+  assert (E : run_top shx_prog 0 shx_ops st0 = Ok shx_st) by (vm_compute; reflexivity).
+  pose proof (run_top_safe shx_prog 0 shx_ops st0 WF_top_st0) as W. rewrite E in W.
+  assert (A1 : live_sig 0 shx_st = Some (mkSig (mkGK RV None true) (Some 0))) by (vm_compute; reflexivity).
+  assert (A4 : step shx_prog (run_callee_fuel shx_prog 0) (OGDel 0) shx_st = Done shx_st' tt) by (vm_compute; reflexivity).
+  set (r := mkRep 0 true false (Some (mkFun 0 [1000] (Some 0))) []).
+  assert (A5 : In r (all_reps shx_st')) by (vm_compute; left; reflexivity).
+  destruct (H _ _ _ _ _ _ (proj1 W) A1 eq_refl A4 r _ A5 eq_refl) as [X|X].
+  - apply X. reflexivity.
+  - apply X. vm_compute. left; reflexivity.
 Qed.
 
 (* S_other_handles_keep_list is false for a trackable_signal that holds (a copy of) its own
@@ -661,7 +710,10 @@ Lemma other_handles_keep_list_partial :
     exists im', aget i (impls st') = Some im' /\ map n_id (i_nodes im') = map n_id (i_nodes im).
 Proof.
   intros prog rec g st st' go i im Ht Hl Hi Hgi Hrc Hk Hs.
-  destruct (sig_del_top prog rec g st st' go i Ht Hl Hi Hs)
+  destruct (is_shared (sig_key g) st) eqn:Hsh.
+  { cbn [step] in Hs. rewrite Hl, Hsh in Hs. cbn [negb] in Hs. inversion Hs; subst st'.
+    exists im. split; [exact Hgi|reflexivity]. }
+  destruct (sig_del_top prog rec g st st' go i Ht Hl Hi Hsh Hs)
     as (sta & im0 & im1 & Hgi0 & Hgi1 & Hsame & Hh & Hd & W2 & W' & Hnt & Cm & Hr & E).
   specialize (Hnt Hk). subst sta.
   set (st2 := with_sigs (aset g None (sigs st)) st) in *.
@@ -678,7 +730,10 @@ Lemma other_handles_keep_impl :
     aget i (impls st') <> None.
 Proof.
   intros prog rec g st st' go i im Ht Hl Hi Hgi Hrc Hs.
-  destruct (sig_del_top prog rec g st st' go i Ht Hl Hi Hs)
+  destruct (is_shared (sig_key g) st) eqn:Hsh.
+  { cbn [step] in Hs. rewrite Hl, Hsh in Hs. cbn [negb] in Hs. inversion Hs; subst st'.
+    change (impls (emit_ev ESkip st)) with (impls st). congruence. }
+  destruct (sig_del_top prog rec g st st' go i Ht Hl Hi Hsh Hs)
     as (sta & im0 & im1 & Hgi0 & Hgi1 & Hsame & Hh & Hd & W2 & W' & Hnt & Cm & Hr & E).
   set (st2 := with_sigs (aset g None (sigs sta)) sta) in *.
   unfold release_check in E. change (impls st2) with (impls sta) in E. rewrite Hgi1 in E.
@@ -778,7 +833,7 @@ Qed.
 Lemma slot_ops_frame : S_slot_ops_frame.
 Proof.
   intros prog rec o st st' s H Hso Ht Hs. unfold live_slot.
-  destruct o as [t|t|td ts|td ts|t|t|t|a rk body refs|a rk|sn so|sn so|sd ss|sd ss|a arg catch|a b|a|a|a|g k|gn go|gn go|gd gs|gd gs|g|g a c front mv|g arg catch|g|g b|g|a g|c|cn co|cd cs|c|c b|c|c|k c|k|k c|kn ko|kd ks|k1 k2|k c|k|k b|k|k| | ];
+  destruct o as [t|t|td ts|td ts|t|t|t|a rk body refs|a rk|sn so|sn so|sd ss|sd ss|a arg catch|a b|a|a|a|g k|gn go|gn go|gd gs|gd gs|g|g|g|g a c front mv|g arg catch|g|g b|g|a g|c|cn co|cd cs|c|c b|c|c|k c|k|k c|kn ko|kd ks|k1 k2|k c|k|k b|k|k| | ];
     try discriminate Hso; cbn [touches_slot] in Ht; cbn [step] in Hs;
     try (apply orb_false_elim in Ht; destruct Ht as [Ht Ht2]; apply N.eqb_neq in Ht2);
     apply N.eqb_neq in Ht.
@@ -849,6 +904,9 @@ Print Assumptions copy_shares.
 Print Assumptions assign_shares.
 Print Assumptions move_transfers.
 Print Assumptions last_handle_teardown.
+Print Assumptions last_handle_teardown_false.
+Print Assumptions forwarder_dies_with_signal.
+Print Assumptions forwarder_dies_with_signal_false.
 Print Assumptions other_handles_keep_list_false.
 Print Assumptions other_handles_keep_list_partial.
 Print Assumptions other_handles_keep_impl.
@@ -859,5 +917,4 @@ Print Assumptions disconnect_empties.
 Print Assumptions slot_ops_frame.
 Print Assumptions forwarder_emits.
 Print Assumptions forwarder_tracks_its_signal.
-Print Assumptions forwarder_dies_with_signal.
 Print Assumptions copy_is_distinct_trackable.
